@@ -8,7 +8,7 @@ from vlib import gen, harness, opcheck, tol
 from vlib.runner import Violation, sut
 
 ID = "C06"
-BUDGET = {"quick": 1600, "thorough": 30000}
+BUDGET = {"quick": 1600, "thorough": 64000}
 RULE = ("Generated: smooth&decomposable DAGs over every input type (categorical probs/logits, binomial "
         "probs/logits, embedding, Gaussian, polynomial; different types / category counts / degrees per "
         "variable so that folded evidence layers are heterogeneous), 1..3 outputs, renumbered variables; "
